@@ -60,11 +60,15 @@ def gen_history(rng: random.Random) -> dict:
         storage = rng.choice(used)
         if kind == 'read2':
             sa, sb = rng.sample(sids, 2)
-            if rng.random() < 0.4:  # two readers of ONE feed (any kind: no cross-feed ambiguity for the cache model)
+            only_sql = [s for s in used if STORAGES[s].startswith('sql')]
+            if rng.random() < 0.4 or not only_sql:
+                # two readers of ONE feed (any kind: no cross-feed ambiguity for the cache model). Two DIFFERENT lazy
+                # (csv / inline) feeds read at once is the listed finding lazy-backend-registration-is-process-global in
+                # a form the cache model can not predict row by row (whose view a half-way query sees) - not generated
                 same = rng.choice(used)
                 pair = (same, same)
             else:
-                pair = (rng.choice(sqls), rng.choice(sqls))
+                pair = (rng.choice(only_sql), rng.choice(only_sql))
             ops.append({'op': 'read2', 'a': {'storage': pair[0], 'sid': sa}, 'b': {'storage': pair[1], 'sid': sb},
                         'schedule': [rng.choice([0, 0, 0, 1]) for _ in range(rng.choice([12, 60, 200]))]})
         elif kind == 'read':
@@ -300,6 +304,8 @@ class Run:
             what = res.oplog[-1][1]
             if what in ('create', 'truncate', 'mkdir'):
                 pass  # nothing reached the disk
+            elif os.path.basename(str(res.oplog[-1][2])).startswith('.') or what == 'replace':
+                pass  # the file is written aside and renamed into place: nothing under the final name yet
             elif what == 'write':
                 self.disk[key] = (TORN, storage, self.version[storage])
                 self.stats['torn-cache-files'] += 1
@@ -426,7 +432,7 @@ def main(argv: list[str]) -> int:
         return base.EXIT_OK
     tier = base.tier(args.tier)
     seed0 = base.base_seed()
-    nseeds = args.seeds or (500 if tier == 'quick' else 40000)
+    nseeds = args.seeds or (2000 if tier == 'quick' else 40000)
     budget = args.budget or (40 if tier == 'quick' else 1500)
     print(f'{PROP} seed={seed0} tier={tier} seeds<={nseeds} budget={budget}s')
     base.clean_replays(PROP)
